@@ -182,12 +182,13 @@ def context_manager(ctx):
     cl = dh.methods["close"]
     from ..handler_trace import trace_close
     bad_exit, missing = [], []
-    for tmp, tempdir, exc in ((True, True, False), (True, False, True), (False, False, False), (False, True, True)):
+    for tmp, tempdir, exc, frames in ((True, True, False, 2), (True, False, True, 2), (False, False, False, 2), (False, True, True, 2),
+                                      (True, True, True, 0), (True, False, False, 0), (True, True, True, 1)):
         for method in ("close", "__exit__"):
             if method == "close" and exc:
                 continue
-            t = trace_close(repo, {"tmp": tmp, "tempdir": tempdir, "method": method, "exc": exc})
-            tag = f"{method}: tmp file {'open' if tmp else 'absent'}, temp dir {'in use' if tempdir else 'absent'}" + (", an exception is passing" if exc else "")
+            t = trace_close(repo, {"tmp": tmp, "tempdir": tempdir, "method": method, "exc": exc, "frames": frames})
+            tag = f"{method}: tmp file {'open' if tmp else 'absent'}, temp dir {'in use' if tempdir else 'absent'}, {frames} frame(s) saved so far" + (", an exception is passing" if exc else "")
             if t.outcome[0] != "return":
                 (bad_exit if method == "__exit__" else missing).append(f"[{tag}] raises {t.outcome[1]}")
                 continue
